@@ -25,12 +25,13 @@ CVC5 = "/usr/bin/cvc5"
 class VC:
     """One verification condition: `assumptions => goal` on one path."""
     __slots__ = ("name", "case", "path_id", "assumptions", "goal", "status", "backend",
-                 "time", "model", "note", "kind")
+                 "time", "model", "note", "kind", "inputs")
 
     def __init__(self, name, case, path_id, assumptions, goal, kind="post"):
         self.name, self.case, self.path_id = name, case, path_id
         self.assumptions, self.goal, self.kind = list(assumptions), goal, kind
         self.status, self.backend, self.time, self.model, self.note = None, None, 0.0, None, ""
+        self.inputs = None
 
 
 class Path:
@@ -251,7 +252,9 @@ def discharge(vc, timeout_ms=None, use_cvc5=True):
     t0 = time.time()
     full = timeout_ms or Z3_TIMEOUT_MS
     vc.backend = "z3-" + z3.get_version_string()
+    note0 = vc.note
     vc.status, vc.model, vc.note = _z3_check(vc, min(2000, full))
+    vc.note = (note0 + " " + vc.note).strip()
     if vc.status == "unknown" and use_cvc5:
         st, note = _cvc5_check(vc, full)
         if st == "proved":
